@@ -71,6 +71,16 @@ def gen_tree(rng, n, poly, depth):
     op = rng.choice(['add', 'add', 'sub', 'sub', 'mul', 'mul', 'neg', 'addq', 'raddq', 'subq', 'rsubq', 'mulq', 'divq',
                      'pow', 'pow', 'div', 'rdivq', 'wz', 'cancel'])
     if op in ('add', 'sub', 'mul'):
+        if rng.random() < 0.2:
+            # the same monomial basis in another row order with other coefficients (no alignment shortcut may apply)
+            rows = []
+            for a, _ in gen_lit(rng, n, poly):
+                if a not in [r for r, _ in rows]:
+                    rows.append((a, Fraction(rng.choice([1, -1, 2, 3, 5, 7]))))
+            perm = list(rows)
+            rng.shuffle(perm)
+            other = [(a, Fraction(rng.choice([1, -2, 3, 4, 11]))) for a, _ in perm]
+            return (op, ('lit', rows), ('lit', other))
         return (op, gen_tree(rng, n, poly, depth - 1), gen_tree(rng, n, poly, depth - 1))
     if op == 'cancel':   # a - a, a*0 style cancellations to the zero function
         a = gen_tree(rng, n, poly, depth - 1)
